@@ -20,7 +20,10 @@ RULE = ("cases = (tool, exact rational samples, parameters, input route) drawn "
         "1./size and the envelope pole radius, are taken at their exact double "
         "value); non-trivial = more samples than the window/lag and the tool's "
         "interesting branch fired (window slid / crossing / jump corrected / "
-        "clip active); distinct = distinct case hash")
+        "clip active); unwrap_wide builds sequences move by move on int / plain Fraction / Q "
+        "(jumps beyond 2**53, jumps on or a hair off a half-step tie); long_inputs describes "
+        "inputs of thousands of samples as (seed, palette) and checks maverage / amdf against "
+        "sliding exact window sums; distinct = distinct case hash")
 ASSUMPTIONS = [
   "samples are exact rationals (Q absorbs the library's float constants exactly); "
   "float behaviour is only sampled through envelope.rms (sqrt) with tolerance 1e-12",
@@ -33,6 +36,9 @@ ASSUMPTIONS = [
   "the oracle in double precision; y[n] = (1-R) u[n] + R y[n-1], y[-1] = 0",
   "unwrap is only called with at least one sample (the empty case is undefined "
   "by the property); hysteresis >= 0, step > 0, max_delta >= 0",
+  "long_inputs: int samples only with power-of-two windows and int zero (the library's float "
+  "arithmetic is then exact); Q samples with any window; maverage.fir is left out for Q samples "
+  "when size*n > 40000 (cost); envelope is not run on long inputs (exact denominators grow by 53 bits per sample)",
   "clip: the property fixes idempotence, bounds and (design) identity inside the "
   "limits; ValueError exactly when both limits are given and high < low",
 ]
@@ -492,7 +498,188 @@ def run_unwrap(case):
     labels.append("corrected")
   if sum(jumps) >= 2:
     labels.append("several jumps")
+  labels.append("samples:" + "/".join(sorted(set(_numtype(v) for v in x))))
+  labels.append("params:" + "/".join(sorted(set(_numtype(v) for v in (md, step)))))
+  # regimes where a quotient taken in double precision is not the exact one
+  half = Fraction(1, 2)
+  for a, b, j in zip(x, x[1:], jumps):
+    q = abs(Fraction(b) - a) / stp
+    off = q - (q.numerator // q.denominator) - half      # distance from a half-step tie
+    if j and abs(Fraction(b) - a) > 2 ** 53:
+      labels.append("jump beyond 2**53")
+    if j and off == 0:
+      labels.append("jump on half-step tie")
+    elif j and abs(off) * 10 ** 15 < max(q, 1):
+      labels.append("jump a hair off half-step tie")
+  labels = sorted(set(labels))
   return {"nontrivial": n >= 3 and corrected, "labels": labels}
+
+
+def _numtype(v):
+  return "Q" if isinstance(v, Q) else ("Fraction" if isinstance(v, Fraction) else type(v).__name__)
+
+
+def cast(v, t):
+  """exact value v as the number type t ('int' falls back to Fraction for a non-integer)"""
+  v = Fraction(v)
+  if t == "Q":
+    return Q(v)
+  if t == "int" and v.denominator == 1:
+    return int(v)
+  return v
+
+
+_NUM = ["int", "int", "Fraction", "Fraction", "Q"]
+
+
+@st.composite
+def _unwrap_wide(draw, tier):
+  """Sequences built move by move from number types that do not absorb floats (int, plain Fraction)
+  as well as Q: ordinary small moves, moves beyond 2**53, moves on / a hair off a half-step tie,
+  and returns to small absolute values."""
+  s_t, p_t = draw(st.sampled_from(_NUM)), draw(st.sampled_from(_NUM))
+  integral = s_t == "int"
+  ints = st.integers(1, 12).map(Fraction)
+  step = draw(ints if integral else st.one_of(
+    st.fractions(min_value=Fraction(1, 4), max_value=4, max_denominator=4), ints))
+  rel = draw(st.sampled_from([None, None, 0, Fraction(1, 8), Fraction(1, 4), Fraction(1, 3), Fraction(1, 2),
+                              Fraction(3, 4), 1]))
+  md = draw(st.fractions(min_value=0, max_value=3, max_denominator=4)) if rel is None else step * rel
+  small = st.integers(-8, 8).map(Fraction) if integral else st.fractions(min_value=-8, max_value=8, max_denominator=4)
+  sign = st.sampled_from([1, -1])
+  hair = st.sampled_from([-1, 0, 1]).map(Fraction) if integral else st.one_of(
+    st.just(Fraction(0)),
+    st.tuples(sign, st.sampled_from([2, 10]), st.integers(17, 70)).map(lambda t: Fraction(t[0], t[1] ** t[2])))
+  move = st.one_of(
+    st.tuples(st.just("small"), small),
+    st.tuples(st.just("big"), sign, st.integers(54, 100), st.integers(1, 9), small),
+    st.tuples(st.just("tie"), sign, st.integers(0, 6), hair),
+    st.tuples(st.just("abs"), small))
+  moves = draw(st.lists(move, min_size=2, max_size=10 if tier == "quick" else 24))
+  cur = draw(small)
+  x = [cur]
+  for m in moves:
+    if m[0] == "small":
+      cur = cur + m[1]
+    elif m[0] == "big":
+      cur = cur + m[1] * m[3] * 2 ** m[2] + m[4]
+    elif m[0] == "tie":
+      d = (m[2] + Fraction(1, 2)) * step
+      if integral:
+        d = Fraction(d.numerator // d.denominator)
+      cur = cur + m[1] * (d + m[3])
+    else:
+      cur = m[1]
+    x.append(cur)
+  return dict(x=[cast(v, s_t) for v in x], max_delta=cast(md, p_t), step=cast(step, p_t),
+              args=draw(st.sampled_from(["kw", "pos"])), route=draw(_route))
+
+
+def strat_unwrap_wide(tier):
+  return _unwrap_wide(tier)
+
+
+# --------------------------------------------------------------------------
+# long inputs: thousands of samples (many window lengths), described compactly
+# --------------------------------------------------------------------------
+def long_signal(seed, n, palette):
+  """n samples taken from the palette in a fixed pseudo-random order: a pure function of the case"""
+  out, s, k = [], seed, len(palette)
+  for _ in range(n):
+    s = (s * 1103515245 + 12345) % 2 ** 31
+    out.append(palette[(s >> 8) % k])
+  return out
+
+
+def sliding_sums(x, size, zero):
+  """window_sum for every n in O(len(x)); exact arithmetic, so the same numbers as the direct sums"""
+  out, acc = [], zero * size
+  for i, v in enumerate(x):
+    acc = acc + v - (x[i - size] if i >= size else zero)
+    out.append(acc)
+  return out
+
+
+def strat_long(tier):
+  quick = tier == "quick"
+  base = dict(
+    kind=st.sampled_from(["int", "int", "Q"]), seed=st.integers(0, 2 ** 31 - 1),
+    # spread evenly over the range (integers() alone leans towards the lower end)
+    n=st.tuples(st.sampled_from(range(1000, 4000 if quick else 12000, 100)), st.integers(0, 100)).map(sum),
+    palette=st.lists(qv(-4, 4, 5), min_size=2, max_size=6),
+    ipalette=st.lists(st.integers(-50, 50), min_size=2, max_size=6), route=_route)
+  size = st.one_of(st.integers(1, 8), st.sampled_from([16, 32, 64]), st.integers(9, 80 if quick else 200))
+  win = dict(size=size, log2size=st.integers(0, 6 if quick else 8), zero=_zero,
+             izero=st.sampled_from(["default", "int0", "default", "int0", 1, -2, 3]))
+
+  stepq = st.fractions(min_value=Fraction(1, 4), max_value=4, max_denominator=4).map(Q)
+  extra = {
+    "maverage": win,
+    "amdf": dict(win, lag=st.integers(1, 40)),
+    "accumulate": dict(zkw=st.sampled_from(["default", "int0", "q0"])),
+    "zcross": dict(hyst=_hyst, first_sign=st.sampled_from(["default", 0, -3, 2, Q(1, 3)])),
+    "unwrap": dict(max_delta=st.fractions(min_value=0, max_value=3, max_denominator=4).map(Q),
+                   step=st.one_of(stepq, st.integers(1, 4)), args=st.sampled_from(["kw", "pos"])),
+    "clip": dict(low=_lim, high=_lim, positional=st.booleans())}
+  # the tool is drawn first (a one_of over dictionaries of different sizes is not evenly weighted)
+  return st.sampled_from(["maverage"] * 4 + ["amdf"] * 3 + ["accumulate", "zcross", "unwrap", "clip"]).flatmap(
+    lambda tool: st.fixed_dictionaries(dict(base, tool=st.just(tool), **extra[tool])))
+
+
+def run_long(case):
+  tool, kind, n, route = case["tool"], case["kind"], case["n"], case["route"]
+  x = long_signal(case["seed"], n, case["ipalette"] if kind == "int" else case["palette"])
+  labels = ["long", "tool:" + tool, "kind:" + kind, "route:" + route,
+            "n>=1280" if n >= 1280 else "n<1280", "n>=2560" if n >= 2560 else "n<2560"]
+  varied = any(v != x[0] for v in x)
+  if tool in ("accumulate", "zcross", "unwrap", "clip"):
+    sub = dict((k, v) for k, v in case.items() if k not in ("tool", "kind", "seed", "n", "palette", "ipalette"))
+    sub["x"] = x
+    res = {"accumulate": run_accumulate, "zcross": run_zcross, "unwrap": run_unwrap, "clip": run_clip}[tool](sub)
+    return {"nontrivial": res["nontrivial"], "labels": labels}
+  # ---- maverage (every strategy) / amdf
+  if kind == "int":      # ints with a power-of-two window: the library's float arithmetic is exact
+    size = 2 ** case["log2size"]
+    kw, zero = zero_of(case["izero"])
+    zero = int(zero) if case["izero"] in ("default", "int0") else zero
+    xe = x
+  else:
+    size = case["size"]
+    kw, zero = zero_of(case["zero"])
+    xe, zero = [Fraction(v) for v in x], Fraction(zero)
+  c = Fraction(1. / size)
+  exact = zero == 0 or (size & (size - 1)) == 0
+  peak = max(abs(v) for v in xe)
+  tol = Fraction(TOL) * (2 * size * peak + 2 * abs(zero))
+  labels += ["zero=0" if zero == 0 else "zero!=0", "exact" if exact else "tolerance",
+             "size<=32" if size <= 32 else "size>32", "n>=40*size" if n >= 40 * size else "n<40*size"]
+  what = "x = long_signal(%d, %d, %r)" % (case["seed"], n, case["ipalette"] if kind == "int" else case["palette"])
+
+  def compare(name, got, sums):
+    if len(got) != n:
+      raise Violation("%s: %d outputs for %d inputs (%s)" % (name, len(got), n, what))
+    for i, (g, su) in enumerate(zip(got, sums)):
+      e = c * su
+      if g != e and (exact or not near(g, e, tol) or not near(g, su / size, tol)):
+        raise Violation("%s(x, zero=%r)[%d] = %r, mean of the last %d samples is %r (fl(1/size)*sum = %r; "
+                        "window = %r; %s)" % (name, zero, i, g, size, su / size, e,
+                                              xe[max(0, i - size + 1):i + 1], what))
+
+  if tool == "maverage":
+    sums = sliding_sums(xe, size, zero)
+    for name, mk in MAV:
+      if name == "fir" and kind == "Q" and size * n > 40000:
+        labels.append("fir left out (cost)")      # size multiplications of Q per sample
+        continue
+      compare("maverage.%s(%d)" % (name, size), pulled(mk(size)(feed(x, route), **kw), n, "maverage." + name), sums)
+  else:
+    lag = case["lag"]
+    d = [abs(xe[i] - (xe[i - lag] if i >= lag else zero)) for i in range(n)]
+    sums = sliding_sums(d, size, zero)
+    labels.append("lag<size" if lag < size else ("lag=size" if lag == size else "lag>size"))
+    compare("amdf(%d,%d)" % (lag, size), pulled(amdf(lag, size)(feed(x, route), **kw), n, "amdf"), sums)
+    varied = len(set(d)) > 1
+  return {"nontrivial": varied, "labels": labels}
 
 
 CLAUSES = [
@@ -520,4 +707,16 @@ CLAUSES = [
   Clause("unwrap", strat_unwrap, run_unwrap, quick=1000, thorough=20000,
          floors={"corrected": .15, "no jump": .1, "several jumps": .15, "diff on max_delta": .05},
          doc="unwrap: out-x multiples of step, identity without jumps, adjacent output jump <= max(max_delta, step/2)"),
+  Clause("unwrap_wide", strat_unwrap_wide, run_unwrap, quick=800, thorough=16000,
+         floors={"samples:int": .12, "samples:Fraction": .12, "samples:Q": .05, "params:int": .05,
+                 "params:Fraction": .1, "jump beyond 2**53": .2, "jump a hair off half-step tie": .08,
+                 "jump on half-step tie": .08, "max_delta<step/2": .15, "corrected": .3},
+         doc="unwrap on int / plain Fraction / Q samples and parameters (types that do not absorb a float), with "
+             "jumps beyond 2**53 and jumps on or a hair (1e-17..2**-70) off a half-step tie: same three assertions, exact"),
+  Clause("long_inputs", strat_long, run_long, quick=120, thorough=1200,
+         floors={"tool:maverage": .12, "tool:amdf": .08, "kind:Q": .1, "kind:int": .25, "n>=1280": .4,
+                 "n>=40*size": .15, "size>32": .03},
+         doc="inputs of 1000..4000 (thorough ..12000) samples, given as (seed, palette): every maverage strategy and "
+             "amdf against sliding exact window sums (windows up to 80 / 200 samples; ints with 2^k windows, Q with any), "
+             "and accumulate / zcross / unwrap / clip through their short-input oracles"),
 ]
